@@ -17,8 +17,9 @@
 //     virtual thread (team of one), which is libgomp's default.
 //   * Exactly one virtual thread runs at a time.  Scheduling decisions ("choice points"):
 //       start / finish / blocked : which enabled thread runs next                 (not a preemption)
-//       visible operation        : before every atomic operation and every GOMP_critical_start the
-//                                  running thread may be preempted in favour of any other enabled thread
+//       visible operation        : before every atomic operation, every GOMP_critical_start and every
+//                                  GOMP_critical_end (i.e. while the lock is still held) the running thread
+//                                  may be preempted in favour of any other enabled thread
 //                                  (costs one preemption; allowed while preemptions < bound)
 //     A thread that wants the critical lock while another virtual thread holds it is disabled until
 //     the lock is released.  These are the only synchronisations an OCCA OpenMP translation contains.
